@@ -3,7 +3,7 @@
 cd /verif
 IDS=${@:-$(ls seeded)}
 for ID in $IDS; do
-  tools/seed_eval.sh $ID > /dev/shm/seedeval-$ID.txt 2>&1
+  tools/seed_eval.sh $ID > /dev/shm/seedeval-$ID.txt 2>&1   # $ID is the directory name (C07 or C07-r2); the property is its first 3 characters
   /venv/bin/python - $ID <<'PY'
 import sys, json, re
 ID = sys.argv[1]
@@ -17,7 +17,7 @@ meta.update({
   'confirmed': {'patch_applies_to_repo_head': True, 'demo_exit_on_repo': int(m.group(1)), 'demo_exit_with_change': int(m.group(2)),
                 'pinned_suite_passed_with_change': int(pinned.group(1)), 'stable_tests_missing_with_change': pinned.group(2)},
   'what_was_run': ['tools/seed_eval.sh %s  (patch applied to a scratch copy of /repo/emd; demo.py against /repo and against the copy; '
-                   'pinned pytest suite on the copy; ./check %s --tier quick with VERIF_REPO pointing at the copy; copy removed)' % (ID, ID)],
+                   'pinned pytest suite on the copy; ./check %s --tier quick with VERIF_REPO pointing at the copy; copy removed)' % (ID, ID[:3])],
   'check_exit_status': int(m.group(3)),
   'status': 'caught' if m.group(3) == '1' else 'MISSED',
   'violation_signatures': sigs[:8]})
